@@ -11,8 +11,10 @@ plus expire and suspend / resume:
   acknowledged as pending (Pending Cancel / Pending Replace, decided later) or accepted at once;
   a request for an order that is finished (or not yet acknowledged) is always rejected; one that
   does not name the ClOrdID under which the order is live is rejected as unknown (OrdStatus Rejected);
-* accepted cancel: Canceled, LeavesQty 0.  Accepted replace: ExecType Replaced, new price / qty,
-  LeavesQty = max(qty − cum, 0), OrdStatus Filled / Suspended / PartiallyFilled / New;
+* accepted cancel: Canceled, LeavesQty 0.  Accepted replace: ExecType Replaced, new price / qty –
+  a requested quantity below CumQty is amended to CumQty (matrix C.3.c), so the echoed OrderQty can
+  differ from the requested one and be fractional –, LeavesQty = max(qty − cum, 0), OrdStatus
+  Filled / Suspended / PartiallyFilled / New;
 * fills (any amount up to LeavesQty, at any time the order is working – also while a request is
   pending or still in flight), expire (from new / partially filled / suspended), suspend, resume;
   when a fill or the expiry finishes an order whose request is acknowledged as pending, the
@@ -103,7 +105,9 @@ def Exch.decide (e : Exch) (d : Decision) : Exch × List Report :=
     else
       let lv := if p.qty - e0.cum < 0 then 0 else p.qty - e0.cum
       let b := if lv = 0 then "2" else if e0.base = "9" then "9" else if e0.cum > 0 then "1" else "0"
-      let e1 := { e0 with liveId := p.clOrdId, price := p.price, qty := p.qty, leaves := lv, base := b }
+      -- matrix C.3.c: a quantity below what is already filled is amended to CumQty
+      let nq := if p.qty < e0.cum then e0.cum else p.qty
+      let e1 := { e0 with liveId := p.clOrdId, price := p.price, qty := nq, leaves := lv, base := b }
       (e1, [e1.execRep p.clOrdId "5" (some old)])
 
 /-- take a client message with decision `d` -/
